@@ -11,6 +11,7 @@ import (
 	"github.com/sirupsen/logrus"
 
 	"hop.computer/hop/common"
+	"hop.computer/hop/pkg/vt"
 )
 
 // TubeType represents identifier bytes of Tubes.
@@ -369,6 +370,9 @@ func (r *Reliable) receive(pkt *frame) error {
 		r.sendRetransmissionAck(pkt.ackNo, newAck, r.id)
 	}
 
+	if vt.On {
+		vt.Yield("rel.receive")
+	}
 	finProcessed, err := r.recvWindow.receive(pkt)
 
 	// Pass the frame to the sender
@@ -450,7 +454,13 @@ func (r *Reliable) enterClosedState() {
 	if r.lastAckTimer != nil {
 		r.lastAckTimer.Stop()
 	}
+	if vt.On {
+		vt.Yield("rel.enterclosed.state")
+	}
 	waitForSender := r.sender.Close() == nil
+	if vt.On {
+		vt.Yield("rel.enterclosed.senderclosed")
+	}
 	r.recvWindow.Close()
 	if waitForSender {
 		r.l.Unlock()
@@ -600,6 +610,9 @@ func (r *Reliable) Close() (err error) {
 	}
 
 	// Cancel all pending read and write operations
+	if vt.On {
+		vt.Yield("rel.close.state")
+	}
 	r.SetReadDeadline(time.Now())
 	r.sender.deadline = time.Now()
 
